@@ -1,6 +1,7 @@
 """C03 — SPARQL Update: WHERE once -> templates -> delete* -> insert*, atomic rejection (shape clauses)."""
 from lib import facts as F
 from lib import dbsinks
+from lib import guards as G
 from lib.taint import Taint
 
 DEL = "DatasetIndex::delete_quad"
@@ -270,6 +271,55 @@ def run(R):
             R.ob("C03-R4", "outside-template-loop", "the map is created outside the loop over templates (shared by one solution's templates)",
                  bool(tmpl_loops), where=it.where(d[2].ln),
                  detail=None if tmpl_loops else "a map per template would split a repeated label inside one solution")
+    # ---------- R7: every solution instantiates every template
+    R.rule("C03-R7", "every solution counts: instantiate_templates instantiates every template under every WHERE solution - the loops "
+                     "range over the whole solution sequence and the whole template list, no iteration is skipped (solutions that "
+                     "agree on the template's variables still get their own blank nodes), and every produced quad enters the result")
+    if it is not None:
+        from lib import pipeline as P
+        iq = [c for c in it.calls() if c.is_("execute_query::instantiate_quad")]
+        for c in iq:
+            nest = sorted(it.loops_containing(c.bb), key=lambda x: len(x[1]))
+            R.ob("C03-R7", "nest", "instantiate_quad is called in a two-level loop nest (found %d levels)" % len(nest), len(nest) == 2, where=it.where(c.ln))
+            if len(nest) != 2:
+                continue
+            (ih, ib), (oh, ob) = nest
+            for nm, (h, blk), param in (("templates", (ih, ib), 1), ("solutions", (oh, ob), 2)):
+                drv = P.driver_of(it, h, blk)
+                names, roots = P.flat(drv[2]) if drv and drv[2] else ([], [])
+                whole = not [n for n in names if n not in ("iter", "into_iter", "deref")]
+                isparam = len(roots) == 1 and roots[0]["k"] == "root" and roots[0]["local"] == param and not roots[0]["fields"]
+                R.ob("C03-R7", "whole:" + nm, "the %s loop ranges over the whole `%s` parameter (pipeline %s over %s)" % (nm, it.local_name(param), names,
+                     [P.render(r) for r in roots]), whole and isparam, where=it.where(c.ln))
+            # no solution is skipped: from the start of an outer iteration the outer header is not reachable without entering the template loop
+            from c11 import _body_entries
+            entries = [e for e in _body_entries(it, oh, ob) if e not in ib or True]
+            entries = [s2 for cc in it.calls() if cc.name() == "next" and cc.bb in ob and cc.bb not in ib for s1 in it.succ(cc.bb) for s2 in it.succ(s1)
+                       if s2 in ob and it.blocks[s1]["term"]["t"] == "switch"]
+            skip = oh in it.reach_from(entries, avoid={ih}) if entries else True
+            R.ob("C03-R7", "no-solution-skipped", "no iteration of the solutions loop bypasses the template loop", not skip, where=it.where(c.ln),
+                 detail=None if not skip else "a solution that is skipped (e.g. as a `duplicate` of an earlier one) gets no fresh blank nodes and "
+                 "contributes no quads: fewer quads are inserted than the standard prescribes")
+            # no template is skipped within a solution: from the inner body entry the inner header is not reachable avoiding the call
+            ientries = [s2 for cc in it.calls() if cc.name() == "next" and cc.bb in ib for s1 in it.succ(cc.bb) for s2 in it.succ(s1)
+                        if s2 in ib and it.blocks[s1]["term"]["t"] == "switch"]
+            iskip = ih in it.reach_from(ientries, avoid={c.bb}) if ientries else True
+            R.ob("C03-R7", "no-template-skipped", "no iteration of the template loop bypasses instantiate_quad", not iskip, where=it.where(c.ln))
+            # every Some(quad) is inserted into the returned set
+            ins = [x for x in it.calls() if x.name() == "insert" and x.bb in ib and "BTreeSet" in (x.pretty or "")]
+            okins = False
+            for x in ins:
+                extra = []
+                for cd in G.conditions(it, x.bb):
+                    if cd.get("bb") is None or cd["bb"] not in ib:
+                        continue
+                    if cd["kind"] == "variant":
+                        continue          # Ok / Continue / Some of the instantiation result
+                    extra.append(cd["kind"])
+                if not extra:
+                    okins = True
+            R.ob("C03-R7", "every-quad-kept", "every quad produced by instantiate_quad is inserted into the result, under no condition other than "
+                 "`instantiation yielded a quad`", okins, where=it.where(c.ln))
     # allocate_blank_node retries until the label is unused and encodes that very label
     ab = R.body("C03-R4", "execute_query::allocate_blank_node", crate="kolibrie")
     if ab is not None:
